@@ -83,12 +83,61 @@ func vfcStaleHandleData(c *vfcClient, R uint64) {
 	c.read(c.handleOf("old"), "small", 0, 16)
 }
 
+// vfcThroughLink: family 5. Something about a target (file or directory) is cached, then a
+// request through the handle of a symbolic link that resolves to it is made (SETATTR mode / size,
+// WRITE, chown). Whether the server refuses it, applies it to the link or lets the backend follow
+// the link is left open by CoreOps; whatever it did, what is reported for the target afterwards
+// must agree with the backend.
+func vfcThroughLink(c *vfcClient, R uint64) {
+	fileMode := vfSattr{Mode: u32p(0644)}
+	dirMode := vfSattr{Mode: u32p(0755)}
+	c.create(R, "f", 0, fileMode, "")
+	f := c.handleOf("f")
+	c.write(f, "small", 0, []byte{1, 2, 3, 4, 5, 6}, 2)
+	c.mkdir(R, "d", dirMode)
+	c.symlink(R, "lf", "f", vfSattr{})
+	c.symlink(R, "ld", "d", vfSattr{})
+	c.symlink(R, "ll", "lf", vfSattr{}) // a link to a link
+	look := func() {
+		for _, nm := range []string{"f", "d", "lf", "ld", "ll"} {
+			c.lookup(R, nm)
+		}
+		c.getattr(f)
+		c.getattr(c.handleOf("d"))
+		c.read(f, "small", 0, 16)
+		c.readdir(R, true)
+	}
+	look()
+	lf, ld, ll := c.handleOf("lf"), c.handleOf("ld"), c.handleOf("ll")
+	c.setattr(ld, vfSattr{Mode: u32p(0700)})
+	look()
+	c.setattr(lf, vfSattr{Mode: u32p(0600)})
+	look()
+	c.setattr(lf, vfSattr{Size: u64p(2)})
+	look()
+	c.write(lf, "small", 1, []byte{9, 9, 9, 9, 9, 9, 9, 9}, 2)
+	look()
+	c.setattr(ll, vfSattr{Mode: u32p(0640), Size: u64p(4)})
+	look()
+	c.setattr(lf, vfSattr{Size: u64p(12)})
+	look()
+	c.setattr(ld, vfSattr{Mode: u32p(0)})
+	look()
+	c.setattr(lf, vfSattr{Mode: u32p(0)})
+	look()
+}
+
 // vfcDirectedData runs the data-path probes (appended to the "data" profile).
 func vfcDirectedData(t *testing.T, tr *vfTrace, firstHist int, seed int64) int {
 	n := 0
 	for _, cfg := range []vfcCfg{{TTL: "def", Neg: true, Dir: true, Profile: "data"}, {TTL: "min", Profile: "data"}, {TTL: "def", T: 4, Profile: "data"}} {
 		c := vfcNewClient(t, tr, cfg, firstHist+n, seed)
 		vfcStaleHandleData(c, c.hs[0])
+		c.flush()
+		c.env.Close()
+		n++
+		c = vfcNewClient(t, tr, cfg, firstHist+n, seed)
+		vfcThroughLink(c, c.hs[0])
 		c.flush()
 		c.env.Close()
 		n++
@@ -184,6 +233,8 @@ func vfcDirected(t *testing.T, tr *vfTrace, firstHist int, seed int64) int {
 		// ---- family 3b: a handle outlives its object and the name is re-populated by RENAME; a
 		// request through the old handle may fail, but may not report success without its effect
 		run(cfg, vfcStaleHandleData)
+		// ---- family 5: requests through the handle of a link whose target's attributes are cached
+		run(cfg, vfcThroughLink)
 		// ---- family 2: the listing of a directory is cached, then every mutator changes its entries
 		run(cfg, func(c *vfcClient, R uint64) {
 			c.mkdir(R, "a", dirMode)
